@@ -2,6 +2,7 @@
 """seed_regress.py [ids...]: re-run, for every kept seeded change, the quick checks that are recorded as catching it
 (meta.json detected_by) with the patch applied to /repo, and restore /repo.  Prints one line per seed; exit 1 if any is missed."""
 import sys, os, json, subprocess, time
+os.environ['VERIF_NO_EVIDENCE'] = '1'       # runs against a patched /repo must not rewrite the evidence files
 V = os.path.dirname(os.path.dirname(os.path.abspath(__file__)))
 ids = sys.argv[1:] or sorted(os.listdir(os.path.join(V, 'seeded')))
 bad = 0
